@@ -5,6 +5,7 @@ package main
 // boundary interfaces as syntactic records.
 
 import (
+	"time"
 	"bytes"
 	"context"
 	"encoding/base64"
@@ -219,6 +220,8 @@ type run struct {
 	hctx     ctxCapture
 	sentReq  *http.Request
 	sentBody []byte
+	sb       *scriptBody
+	bgPanic  atomic.Value // a panic inside the transcoder on one of the handler's own goroutines
 	hWrote   []byte // raw bytes the handler wrote (pass-through comparison)
 	hStatus  int
 	hHeader  http.Header
@@ -666,6 +669,11 @@ func (rn *run) buildRequest() (*http.Request, *scriptBody, []byte) {
 		}
 	}
 	sb := &scriptBody{data: append([]byte(nil), body...), chunks: cl.Chunks, cutErr: cutErr}
+	if rn.scn.Hd.CloseRace && len(body) > 8 {
+		// pause inside the first message: its envelope and three bytes of payload have been delivered
+		sb.pauseAt, sb.paused, sb.release = 8, make(chan struct{}), make(chan struct{})
+	}
+	rn.sb = sb
 	req.Body = sb
 	return req, sb, body
 }
@@ -882,6 +890,37 @@ func (rn *run) serveBackend(kind string, w http.ResponseWriter, req *http.Reques
 	var rerr error
 	if !hd.NoRead {
 		raw, rerr = readAllScripted(req.Body, hd.Reads)
+	}
+	if hd.CloseRace && rn.sb != nil && rn.sb.paused != nil {
+		// reader goroutine blocked in a Read in the middle of a message; another goroutine closes the
+		// body; only then does the rest of the message arrive. What was read is not recorded (noread).
+		readerDone, closerDone := make(chan struct{}), make(chan struct{})
+		go func() {
+			defer close(readerDone)
+			defer func() {
+				if r := recover(); r != nil {
+					rn.bgPanic.Store(fmt.Sprint("handler reader goroutine: ", r))
+				}
+			}()
+			_, _ = io.Copy(io.Discard, req.Body)
+		}()
+		select {
+		case <-rn.sb.paused:
+		case <-time.After(2 * time.Second):
+		}
+		go func() {
+			defer close(closerDone)
+			defer func() {
+				if r := recover(); r != nil {
+					rn.bgPanic.Store(fmt.Sprint("handler closer goroutine: ", r))
+				}
+			}()
+			_ = req.Body.Close()
+		}()
+		time.Sleep(50 * time.Millisecond) // a Close that does not wait for the Read has finished by now
+		rn.sb.releasePause()
+		<-readerDone
+		<-closerDone
 	}
 	switch {
 	case rerr != nil:
@@ -1894,6 +1933,9 @@ func runOn(sh *sharedTC, scn *scenario, seed int64, rpcID string) (obs observati
 	res := serve(tc, req, body, w, &done, scn.Cl.NoFlush || scn.Cl.Rej == "noflusher")
 	obs.Disp = rn.disp
 	obs.Cl = rn.parseClient(scn.Cl.Form, res)
+	if bp, ok := rn.bgPanic.Load().(string); ok && res.panicVal == nil {
+		res.panicVal = bp
+	}
 	obs.Ret.Panic = res.panicVal != nil
 	if res.panicVal != nil {
 		obs.Ret.PanicV = fmt.Sprint(res.panicVal)
